@@ -405,6 +405,20 @@ def c12_f(ctx):
                       'P = argsort(newest recomputed distance)',
                       'the permutation {} is not the argsort of the recomputed distances'.format(
                           show(P)[:80]), fn=f, node=perms[0][0])
+            if member is not None:
+                # every other buffer is permuted: the store runs for keys that are not the
+                # special-cased one
+                okk = all(any((pol and match_any(t, ('_k != _x',)) is not None and
+                               {match_any(t, ('_k != _x',))['k'],
+                                match_any(t, ('_k != _x',))['x']} == {key, member}) or
+                              ((not pol) and match_any(t, ('_k == _x',)) is not None and
+                               {match_any(t, ('_k == _x',))['k'],
+                                match_any(t, ('_k == _x',))['x']} == {key, member})
+                              for (t, pol, _) in ctx.guards(f, n)) for (n, _p) in perms)
+                ctx.check(okk, f, 'all buffers but the special-cased one are permuted',
+                          'if k != discrepancy_name: buf[:n] = buf[P]',
+                          'the permutation is applied under the wrong side of the key test: the '
+                          'parameter columns stay in the old order', fn=f, node=perms[0][0])
             if member is not None and mm is not None:
                 st = [s for (s, t, k) in ctx.stores(f, C01.SAMPLES + '[_]')
                       if k == 'assign' and not _inside(s, lo) and ex.term(t.slice) == member]
